@@ -7,6 +7,7 @@ import (
 	"fmt"
 	"os"
 	"path/filepath"
+	"sync"
 
 	"verifharness/internal/core"
 	"verifharness/internal/imggen"
@@ -211,6 +212,23 @@ func c06JPEG(rng *core.RNG, profile []byte, n int, perm []int, position string, 
 		}
 		ordered[k].num = nn
 		state = "damaged"
+	case "extra-bad-total", "extra-bad-num", "extra-zero-num":
+		// a complete, consistent set plus one more ICC_PROFILE segment that contradicts it
+		extra := c06Chunk{num: 1, total: n + 1, data: []byte("extra")}
+		if damage == "extra-bad-num" {
+			extra = c06Chunk{num: n + 1, total: n, data: []byte("extra")}
+		} else if damage == "extra-zero-num" {
+			extra = c06Chunk{num: 0, total: n, data: []byte("extra")}
+		}
+		if extra.total > 255 || extra.num > 255 {
+			return c06File{}, false
+		}
+		at := rng.Intn(len(ordered) + 1)
+		if rng.Intn(3) == 0 {
+			at = len(ordered)
+		}
+		ordered = append(ordered[:at], append([]c06Chunk{extra}, ordered[at:]...)...)
+		state = "damaged"
 	case "duplicate":
 		k := rng.Intn(len(ordered))
 		at := rng.Intn(len(ordered) + 1)
@@ -389,7 +407,7 @@ func c06Files(seed int64, thorough bool) []func() (c06File, bool) {
 		}
 	}
 	// JPEG
-	jpegDamages := []string{"drop", "total=1", "total=N-1", "total=N+1", "total=255", "num=0", "num=N+1", "num=255", "duplicate"}
+	jpegDamages := []string{"drop", "total=1", "total=N-1", "total=N+1", "total=255", "num=0", "num=N+1", "num=255", "duplicate", "extra-bad-total", "extra-bad-num", "extra-zero-num"}
 	for _, n := range []int{1, 2, 3, 4, 5, 17, 255} {
 		n := n
 		var perms [][]int
@@ -491,6 +509,13 @@ func c06Files(seed int64, thorough bool) []func() (c06File, bool) {
 			add(func(r *core.RNG) (c06File, bool) { return c06WebP(r, profileBytes(r, n, 2), "not-ICCP"), true })
 		}
 	}
+	// structures straddling the read-ahead buffer, big segments before the needed structures
+	for _, f := range boundaryFiles(seed, true) {
+		f := f
+		add(func(r *core.RNG) (c06File, bool) {
+			return c06File{f, "boundary/" + f.Truth.Format + "/" + f.Truth.ICCState, false}, true
+		})
+	}
 	// no profile at all
 	for i := 0; i < 60; i++ {
 		i := i
@@ -542,12 +567,45 @@ func runC06(r *core.Run) {
 		class string
 	}
 	results := make([]string, len(gens))
+	// Results of earlier loads are kept and compared again after later loads have happened: bytes
+	// handed out by a loader must stay what they were (a recycled buffer shows only this way).
+	type kept struct {
+		name string
+		got  []byte
+		want []byte
+	}
+	var keepMu sync.Mutex
+	var ring []kept
+	recheck := func() {
+		keepMu.Lock()
+		defer keepMu.Unlock()
+		for _, k := range ring {
+			if !bytes.Equal(k.got, k.want) {
+				r.Violate("retained", "retained-bytes-changed", fmt.Sprintf("%s: the profile bytes returned by an earlier Load changed after later loads: they now %s", k.name, firstDiff(k.got, k.want)), c06Case{Name: k.name, ICCState: "retained"})
+			}
+		}
+	}
 	core.ParallelFor(len(gens), 12, func(i int) {
 		f, ok := gens[i]()
 		if !ok {
 			return
 		}
 		results[i] = f.class
+		if f.Truth.ICCState == "ok" && len(f.Truth.ICC) > 0 && len(f.Truth.ICC) < 70000 {
+			if res := loadWith(loaderFor(f.Truth.Format), bytes.NewReader(f.Bytes)); res.MD != nil {
+				if d, err := iccDataOf(res.MD); err == nil && d != nil {
+					keepMu.Lock()
+					ring = append(ring, kept{f.Name, d, f.Truth.ICC})
+					if len(ring) > 24 {
+						ring = ring[1:]
+					}
+					keepMu.Unlock()
+				}
+			}
+		}
+		if i%16 == 0 {
+			recheck()
+		}
 		kind, msg, loader := c06Check(f.genFile, []string{loaderFor(f.Truth.Format), "autometa"})
 		r.AddEvals(2)
 		if f.nt {
@@ -557,6 +615,7 @@ func runC06(r *core.Run) {
 			r.Violate("file", f.Truth.Format+"/"+loader+"/"+kind, msg, c06Witness(r, f, loader))
 		}
 	})
+	recheck()
 	for _, c := range results {
 		if c != "" {
 			classes[c]++
@@ -574,6 +633,9 @@ func replayC06(stage string, raw json.RawMessage) (bool, string, error) {
 	var cs c06Case
 	if err := json.Unmarshal(raw, &cs); err != nil {
 		return false, "", err
+	}
+	if stage == "retained" {
+		return false, "", fmt.Errorf("a retained-bytes violation needs the sequence of loads: re-run ./check C06 quick")
 	}
 	var file, icc []byte
 	var err error
